@@ -69,6 +69,13 @@ Section Generic.
   Definition count_old (v : Z) (fs : list bytes) (es : list (vkey * V)) : Z :=
     Z.of_nat (length (filter (fun f => emem v f es) fs)).
 
+  (* the puts of one write batch *)
+  Definition put_all (v : Z) (kvs : list (bytes * V)) (es : list (vkey * V)) : list (vkey * V) :=
+    fold_left (fun es kv => eput v (fst kv) (snd kv) es) kvs es.
+  (* the deletes of one write batch: the sub keys found in the COMMITTED data *)
+  Definition del_some (v : Z) (committed : list (vkey * V)) (ks : list bytes) (es : list (vkey * V)) : list (vkey * V) :=
+    fold_left (fun es f => if emem v f committed then edel v f es else es) ks es.
+
   (* *Clear / *DeleteAll of an existing collection: meta deleted; element keys deleted only under
      local_deletion (wait_compact leaves them to the compaction filter) *)
   Definition clear_coll (compact : bool) (c : coll V) : coll V :=
@@ -108,8 +115,7 @@ Definition hmset (compact : bool) (ts : Z) (key : bytes) (fvs : list (bytes * by
       let v := prep_ver compact ts c in
       let fvs' := last_wins fvs in
       let num := count_new v (map fst fvs') (c_elems c) in
-      let es := fold_left (fun es fv => eput v (fst fv) (snd fv) es) fvs' (c_elems c) in
-      (Build_coll (set_size v (st_size c + num)) es, RNil)
+      (Build_coll (set_size v (st_size c + num)) (put_all v fvs' (c_elems c)), RNil)
   end.
 
 (* HDel: a field repeated in the call is deleted once (fix 54b348f) *)
@@ -123,8 +129,7 @@ Definition hdel (key : bytes) (fs : list bytes) (c : hcoll) : hcoll * reply :=
       let v := st_ver c in
       let fs' := dedup [] fs in
       let num := count_old v fs' (c_elems c) in
-      let es := fold_left (fun es f => if emem v f (c_elems c) then edel v f es else es) fs' (c_elems c) in
-      (Build_coll (set_size v (st_size c - num)) es, RInt num)
+      (Build_coll (set_size v (st_size c - num)) (del_some v (c_elems c) fs' (c_elems c)), RInt num)
   end.
 
 (* HIncrBy: the old value must parse as int64 and the sum must not overflow *)
@@ -187,17 +192,16 @@ Definition sadd (compact : bool) (ts : Z) (key : bytes) (ms : list bytes) (c : s
   else
     let v := prep_ver compact ts c in
     let ms' := dedup [] ms in
-    let num := count_new v ms' (c_elems c) in
-    let es := fold_left (fun es m => if emem v m (c_elems c) then es else eput v m tt es) ms' (c_elems c) in
-    (Build_coll (set_size v (st_size c + num)) es, RInt num).
+    let news := filter (fun m => negb (emem v m (c_elems c))) ms' in      (* only new members are put *)
+    let num := Z.of_nat (length news) in
+    (Build_coll (set_size v (st_size c + num)) (put_all v (map (fun m => (m, tt)) news) (c_elems c)), RInt num).
 
 (* SRem: a member repeated in the call is removed once (fix e608abf) *)
 Definition srem_body (ms : list bytes) (c : scoll) : scoll * Z :=
   let v := st_ver c in
   let ms' := dedup [] ms in
   let num := count_old v ms' (c_elems c) in
-  let es := fold_left (fun es m => if emem v m (c_elems c) then edel v m es else es) ms' (c_elems c) in
-  (Build_coll (set_size v (st_size c - num)) es, num).
+  (Build_coll (set_size v (st_size c - num)) (del_some v (c_elems c) ms' (c_elems c)), num).
 Definition srem (key : bytes) (ms : list bytes) (c : scoll) : scoll * reply :=
   match ms with
   | [] => (c, RInt 0)
